@@ -17,6 +17,10 @@ expression, function-pointer calls, whole-array stores, struct literals, nested 
 the Spec conversion as the expected transcript. On cells where Mech = Spec main must agree with Ref, on the other cells (the
 recorded defects) main must agree with Mech (KNOWN-FINDING) or with Ref (fixed); (2) random programs
 mixing the store paths (direct struct member stores included since fix a3f0b3d); (3) hand-written replays of the findings.
+(1b) the same store paths under `try` / `checked` (the range error becomes an Err value and the program goes on): sequences of 3-4 stores
+into one target, each under try, the target and its neighbours read back after each - a REJECTED store must leave them unchanged; CbCore cells
+run on the extracted try layer (coq/C04/Try.v, bin/c04_model try), all cells are also predicted from the Spec effects and from the Mech
+effects (coq/C04/Model.v store_steps: the order of conversion, check and write on every path; Properties_C04_try.v); random try-programs.
 A translator that gives up or a broken obligation is a VIOLATION; its failing input is the first matrix cell (type x boundary
 value, `T x = v;` first) on which main deviates - `no-failing-input-found` only when main deviates nowhere.
 """
@@ -48,7 +52,12 @@ META = {
             "out-of-range global initialiser (store_inv_run), every value read, returned or bound to a parameter is in range; an in-range store - both "
             "limits of every type included - reads back exactly and touches no other cell (store_exact, store_touches_only_target); a negative "
             "stored to an unsigned target becomes 0; any other out-of-range value is a range error on every store path and leaves the state "
-            "unchanged. GENERATED FROM THE C++ TEXT on every run, by two independent translators: (a) translators/cxx_pure.py turns clang's AST "
+            "unchanged (rejected_store_changes_nothing: every failing primitive store of the reference semantics returns the state it was given). "
+            "Because `try e` / `checked e` turn the range error into an Err value and the program goes on, that is observable: a try layer over the "
+            "reference semantics (coq/C04/Try.v: main is a list of statements and `Result r = try x++ / ++a[i] / s.m-- / f(..)` items) is proved to "
+            "keep the store invariant through any number of caught errors (store_inv_try_run), to leave frames and blocks as deep as they were "
+            "(caught_error_leaves_frames_and_blocks), to leave the state untouched when a ++/-- is rejected (try_incdec_rejected_changes_nothing) and "
+            "to add nothing to try-free programs (try_layer_is_conservative). GENERATED FROM THE C++ TEXT on every run, by two independent translators: (a) translators/cxx_pure.py turns clang's AST "
             "(-ast-dump=json) of TypeManager::check_type_range - the closure it hands to evaluate_safe: switch over the type code, min / max "
             "assignments, range test, throw - into a term of the C++17 integer fragment coq/Cxx/Cxx.v (coq/C04/Gen_CheckTypeRange.v); "
             "check_type_range_is_spec proves, for all 10 (type, signedness) rows and every int64 value, that this term accepts exactly the closed "
@@ -64,11 +73,20 @@ META = {
             "literals, signed 1-D elements and - since fix a3f0b3d - direct stores into struct members (member_store_is_checked: s.m = e, "
             "s.m op= e, s.m++, s.a[i] = e, members of generic structs), and proved NOT to be on the other paths (_refuted theorems = recorded "
             "findings: bool-inferred ?: branch, typedef + ?:, statics after initialisation, global arrays, whole-array stores, struct LITERALS, "
-            "nested members and members reached through a pointer / reference / self / struct-array element, pointers, references). main, the "
+            "nested members and members reached through a pointer / reference / self / struct-array element, pointers, references). The ORDER of "
+            "conversion, check and write of every path is modelled too (store_steps / mech_effect): on every path of the model the check comes before "
+            "the write, so a rejected store - however often repeated - leaves its target as it was (mech_rejected_store_changes_nothing, "
+            "repeated_rejected_stores_change_nothing, checked_paths_effect_refines_spec; write_before_check_refuted is the shape seeded change C04-4 "
+            "gave incdec.cpp). main, the "
             "extracted reference interpreter and the extracted Mech are compared on every run on the exhaustive matrix 9 types x (92 CbCore "
             "store-path variants, each also through a typedef alias for the 5 signed types, + 41 variants outside CbCore) x 13 boundary values "
-            "(one store per program, about 19 000 programs) and on random programs mixing the paths (assignments from ?: and stores into narrow "
-            "struct members included; only a bool-inferred, not 0/1-valued branch is avoided).",
+            "(one store per program, about 21 000 programs; the value also arrives in variables of the narrowest other type and of the same type with "
+            "the other signedness), on about 3 900 cells types x boundary values x (27 CbCore + 14 other) store-path variants UNDER try / checked "
+            "(++/-- on variables, elements, members, through references; =, op=, ++ in a callee on globals, statics, global arrays, members of a "
+            "global struct; arguments, results, declarations, static initialisers; element assignment as an expression; 3-4 caught stores per "
+            "program, target and neighbours read back after each, also through other read paths) and on random programs mixing the paths, 1 200 of "
+            "them with stores under try (assignments from ?: and stores into narrow struct members included; only a bool-inferred, not 0/1-valued "
+            "branch is avoided).",
     "note": "Trusted: Coq kernel, no axioms (all Print Assumptions closed); extraction (ExtrOcamlBasic, ExtrOcamlString) + OCaml driver; for "
             "the clang-based reading: clang 14's AST dump, translators/cxx_pure.py (an AST node outside the fragment is a loud failure = "
             "VIOLATION, never skipped) and the semantics coq/Cxx/Cxx.v; that the closure is what check_type_range executes (evaluate_safe runs "
@@ -79,8 +97,12 @@ META = {
             "outside CbCore (multiple declarations, struct literals, nested / indirect members, pointers, references, whole-array stores, "
             "function-pointer calls) have no Ref run: their expected transcript is the Spec conversion (Lang.Sem.coerce) of the one store, "
             "printed by the harness. `unsigned char` is rejected by the parser, so the matrix has 9 types; `typedef unsigned T` is rejected "
-            "too (typedef variants: signed types only); values outside int64 cannot be written in Cb. Assignment used as an expression "
-            "crashes the interpreter (finding C04-assignment-expression-crash), so the store path behind it is not exercised.",
+            "too (typedef variants: signed types only); values outside int64 cannot be written in Cb. Assignment to a VARIABLE used as an "
+            "expression crashes the interpreter (finding C04-assignment-expression-crash), so that store path is not exercised and a rejected "
+            "= / op= on a variable is observed under try only through a callee (element targets work and are covered). The try layer "
+            "(coq/C04/Try.v) is C04's own extension of the shared reference semantics: try items stand in main only; a caught error other than a "
+            "range error ends the reference run. Raw try cells (references, parameters, statics, blocks, loops, global structs, element assignment "
+            "expressions) have no reference run: their transcript is predicted from the Spec effects of their stores by the harness.",
 }
 
 # Mech path -> finding that explains a cell on which Mech differs from Spec
@@ -92,7 +114,7 @@ PATH_FINDING = {
     "return-from-elemN": "C04-bare-multidim-value",
     "assign-hint:bool": "C04-ternary-assign-bool-branch", "decl-multi:bool": "C04-ternary-assign-bool-branch",
     "decl-typedef-ternary": "C04-typedef-ternary-init-unchecked", "static-assign": "C04-static-unsigned-flag-lost",
-    "elem1-global": "C04-global-array-unsigned-flag-lost", "arrlit-assign1": "C04-array-literal-assign-unchecked",
+    "elem1-global": "C04-global-array-unsigned-flag-lost", "elemN-global": "C04-global-array-unsigned-flag-lost", "arrlit-assign1": "C04-array-literal-assign-unchecked",
     "arrlit-assignN": "C04-array-literal-assign-unchecked", "arr-copy": "C04-array-copy-unchecked",
     # direct member stores (`member`, `member-generic`) are range checked since fix a3f0b3d: no finding explains a deviation there
     "member-literal": "C04-struct-literal-unchecked", "member-literal-arr": "C04-struct-literal-unchecked",
@@ -285,6 +307,86 @@ def spec_query(q):
     return "spec %s %d" % (w[2], int(w[3]) + int(w[4]))
 
 
+# ------------------------------------------------------------------ stores under try / checked
+import re as _re
+RANGE_ERR_LINE = _re.compile(r"^0 (Custom|CheckedError): Value out of range for type$")
+
+
+def canon_try_stdout(out):
+    """the report of a caught range error `0 Custom: Value out of range for type` (try) / `0 CheckedError: ..` (checked) is the reference's `0`;
+    any other caught error stays as it is (and therefore differs)"""
+    return "\n".join("0" if RANGE_ERR_LINE.match(l) else l for l in out.split("\n"))
+
+
+def try_model_run(sexprs, fuel=4000, timeout=1800):
+    """the extracted try layer (coq/C04/Try.v run_try / print_tprogram) -> list of {src, expect, out}"""
+    if not sexprs:
+        return []
+    common.ensure_model(PROP)
+    rc, o, e = common.sh([common.model_bin(PROP), "try", str(fuel)], input=("\n".join(sexprs) + "\n").encode(), timeout=timeout)
+    if rc != 0:
+        raise RuntimeError("c04_model try failed rc=%d: %s" % (rc, e[-800:]))
+    res = []
+    for blk in o.split("===BEGIN\n")[1:]:
+        src, rest = blk.split("===EXPECT ", 1)
+        exp, rest = rest.split("\n", 1)
+        out = rest.rsplit("\n===END", 1)[0]
+        res.append({"src": src, "expect": exp.strip(), "out": out})
+    if len(res) != len(sexprs):
+        raise RuntimeError("c04_model try returned %d results for %d programs" % (len(res), len(sexprs)))
+    return res
+
+
+def try_impl_run(impl, srcs):
+    irs = fast_impl_run(impl, srcs)
+    for k, ir in enumerate(irs):
+        if ir["rc"] == 124:
+            rc, o, e = common.run_cb(impl, srcs[k], timeout=120)
+            irs[k] = ir = {"rc": rc, "out": o, "err": e}
+        ir["raw_out"] = ir["out"]
+        ir["out"] = canon_try_stdout(ir["out"])
+    return irs
+
+
+def try_differential(impl, sexprs, fuel=4000, model_timeout=1800):
+    """try-programs on the extracted try layer and on main -> (results, mismatches) like differential()"""
+    ms = try_model_run(sexprs, fuel, model_timeout)
+    idx = [k for k, m in enumerate(ms) if m["expect"] not in ("undef", "nofuel")]
+    irs = try_impl_run(impl, [ms[k]["src"] for k in idx])
+    res = [{"model": m, "impl": None} for m in ms]
+    bad = []
+    for k, ir in zip(idx, irs):
+        res[k]["impl"] = ir
+        why = langrun.compare(ms[k], ir)
+        if why:
+            bad.append((k, why))
+    return res, bad
+
+
+def try_cells_run(impl, cells):
+    """cells = [(cell, meta)] of gen_c04.try_matrix / raw_try_matrix -> list of dicts {src, ref, mech, spec, mech_out, spec_out, impl}:
+    ref = run of the extracted try layer (CbCore cells), mech / spec = the effects the two models give for the cell's stores,
+    *_out = the transcript predicted from them"""
+    mech = [gen_c04.parse_effects(x) for x in mech_run([m["query"] for _, m in cells])]
+    spec = [gen_c04.parse_effects(x) for x in mech_run([m["spec_query"] for _, m in cells])]
+    core = [k for k, (c, _) in enumerate(cells) if "sexpr" in c]
+    refs = dict(zip(core, try_model_run([cells[k][0]["sexpr"] for k in core])))
+    out = []
+    for k, (c, m) in enumerate(cells):
+        ref = refs.get(k)
+        out.append({"src": ref["src"] if ref else c["src"], "ref": ref, "mech": mech[k], "spec": spec[k],
+                    "mech_out": gen_c04.predict_try(c, mech[k]), "spec_out": gen_c04.predict_try(c, spec[k]), "impl": None})
+    run_idx = [k for k, r in enumerate(out) if not (r["ref"] and r["ref"]["expect"] in ("undef", "nofuel"))
+               and gen_c04.try_wellformed(cells[k][0], r["spec"]) and gen_c04.try_wellformed(cells[k][0], r["mech"])]
+    for k, ir in zip(run_idx, try_impl_run(impl, [out[k]["src"] for k in run_idx])):
+        out[k]["impl"] = ir
+    return out
+
+
+def shows(i, transcript):
+    return i is not None and i["rc"] == 0 and i["out"] == transcript
+
+
 # ------------------------------------------------------------------ main
 def run(rep):
     seed, tier = rep.seed, rep.tier
@@ -328,6 +430,17 @@ def run(rep):
     lap("translator+coq+model")
     impl = common.build_impl("plain")
     lap("build")
+
+    # finding C04-reference-incdec-hits-the-reference: `q++` through a reference never reaches the referenced variable, so the two matrix
+    # paths that perform it say nothing about a store path; they are generated as soon as the finding's replay behaves as demanded
+    withheld = {}
+    for f in common.known_findings(PROP):
+        if f["id"] == "C04-reference-incdec-hits-the-reference":
+            rc, o, e = common.run_cb(impl, f["replay"]["program"])
+            if not (rc == 0 and o == f["replay"]["expected_stdout"]):
+                withheld = {"reference:incdec": f["id"], "raw-try-reference:incdec": f["id"]}
+    raw_paths = [x for x in gen_c04.RAW_PATHS if x not in withheld]
+    raw_try_paths = [x for x in gen_c04.RAW_TRY_PATHS if x not in withheld]
 
     violations = []          # (name, payload, text)
     known_cells = collections.Counter()
@@ -416,13 +529,79 @@ def run(rep):
         n_eval += len(cases)
         judge(cases, res, bad, mech, spec, ps)
         lap("matrix-mech+judge")
-        raw = gen_c04.raw_matrix(rng_for(seed, "c04-raw", ps))
+        raw = gen_c04.raw_matrix(rng_for(seed, "c04-raw", ps), paths=raw_paths)
         mech = mech_run([c[1]["query"] for c in raw])
         spec = mech_run([spec_query(c[1]["query"]) for c in raw])
         res, bad = raw_differential(impl, raw, spec)
         n_eval += len(raw)
         judge(raw, res, bad, mech, spec, ps)
         lap("matrix-raw")
+
+    # (2b) the same store paths under try / checked: the range error is caught, the program goes on and reads the target and its
+    # neighbours back - a REJECTED store must have left them as they were (and repeated rejected stores too)
+    try_cells_n = collections.Counter()
+    try_rejected = [0, 0]          # stores of the try cells: rejected / all (Spec)
+
+    def judge_try(cells, rs, ps):
+        nonlocal matrix_cells, defect_cells, nontriv
+        for (c, meta), r in zip(cells, rs):
+            group = "try-raw" if meta.get("raw") else "try"
+            hist["matrix:" + meta["path"].split(":")[0]] += 1
+            cells_by_path[meta["path"]] += 1
+            ref, i = r["ref"], r["impl"]
+            if ref is not None:
+                outcomes[ref["expect"]] += 1
+            if i is None:
+                continue
+            key = (c.get("sexpr") or c["src"], "try")
+            if key not in distinct:
+                distinct.add(key)
+                nontriv += 1
+            matrix_cells += 1
+            group_cells[group] += 1
+            try_cells_n[meta["path"]] += 1
+            try_rejected[0] += sum(1 for a in r["spec"] if not a[0])
+            try_rejected[1] += len(r["spec"])
+            if ps == 0 and len(samples) < 12 and meta["kind"] == "max+1" and meta["type"] in ("tiny", "ushort") and meta["path"].endswith((":post", ":var", ":assign")):
+                samples.append({"cell": {x: meta[x] for x in ("path", "type", "kind", "value")}, "program": r["src"],
+                                "reference": [ref["expect"], ref["out"]] if ref else ["predicted from Spec", r["spec_out"]],
+                                "mech": meta["query"] + " -> " + repr(r["mech"]), "main": [i["rc"], i["out"]]})
+            payload = {"cell": dict(meta), "try_cell": c, "program": r["src"], "expected_outcome": "finished", "expected_stdout": r["spec_out"],
+                       "mech": repr(r["mech"]), "spec": repr(r["spec"]), "impl_rc": i["rc"], "impl_stdout": i["raw_out"], "impl_stderr": i["err"][-400:]}
+            if ref is not None and (ref["expect"] != "finished" or ref["out"] != r["spec_out"]):
+                violations.append(("generator", dict(payload, reference=[ref["expect"], ref["out"]]),
+                                   "internal: the transcript predicted from the Spec effects and the run of the try layer differ (%s)" % meta["path"], True))
+                continue
+            what = "store path %s, type %s, value %d (%s), %d stores under try of which Spec rejects %d" % (
+                meta["path"], meta["type"], meta["value"], meta["kind"], len(r["spec"]), sum(1 for a in r["spec"] if not a[0]))
+            if r["mech_out"] == r["spec_out"]:
+                if not shows(i, r["spec_out"]):
+                    violations.append(("matrix", dict(payload, why="stdout / status differ from the reference"),
+                                       "%s: main rc=%d prints %r, the property demands %r (a rejected store must leave its target unchanged)" % (
+                                           what, i["rc"], i["out"][:60], r["spec_out"][:60]), False))
+            else:
+                defect_cells += 1
+                fid = PATH_FINDING.get(c["mpath"])
+                if shows(i, r["mech_out"]) and fid:
+                    known_cells[fid] += 1
+                elif shows(i, r["spec_out"]):
+                    fixed_cells[fid or meta["path"]] += 1
+                else:
+                    violations.append(("matrix", dict(payload, why="neither the reference transcript nor the one of the model of today's code"),
+                                       "%s: main rc=%d prints %r, the property demands %r, the model of today's code %r" % (
+                                           what, i["rc"], i["out"][:50], r["spec_out"][:50], r["mech_out"][:50]), False))
+
+    for ps in range(passes):
+        tc = gen_c04.try_matrix(rng_for(seed, "c04-try", ps))
+        rs = try_cells_run(impl, tc)
+        n_eval += len(tc)
+        judge_try(tc, rs, ps)
+        lap("matrix-try")
+        tr = gen_c04.raw_try_matrix(rng_for(seed, "c04-try-raw", ps), paths=raw_try_paths)
+        rs = try_cells_run(impl, tr)
+        n_eval += len(tr)
+        judge_try(tr, rs, ps)
+        lap("matrix-try-raw")
 
     # (3) random programs mixing the store paths
     n_mixed = 2500 if quick else 30000
@@ -490,6 +669,52 @@ def run(rep):
                                     "impl_stdout": i["out"] if i else None, "impl_rc": i["rc"] if i else None,
                                     "impl_stderr": (i["err"][-600:] if i else None), "origin": origin[k], "why": why},
                            "main disagrees with the reference semantics on a program mixing store paths (%s; %s)" % (why, origin[k]), False))
+
+    # (3b) random try-programs: stores under try / checked mixed with plain ones, on the extracted try layer and on main
+    n_try = 1200 if quick else 12000
+    tprogs = [gen_c04.mixed_try_program(rng_for(seed, "c04-mixed-try", k)) for k in range(n_try)]
+    tcorpus = os.path.join(common.VERIF, "corpus", "c04_try.json")
+    if os.path.exists(tcorpus):
+        tprogs = list(json.load(open(tcorpus))) + tprogs
+    tres, tbad = [], []
+    for a in range(0, len(tprogs), CH):
+        r, b = try_differential(impl, tprogs[a:a + CH])
+        tres += r
+        tbad += [(k + a, w) for k, w in b]
+    n_eval += len(tprogs)
+    caught = 0
+    for p, r in zip(tprogs, tres):
+        hist["random:mixed-try"] += 1
+        outcomes[r["model"]["expect"]] += 1
+        if r["model"]["expect"] == "range":
+            range_errors += 1
+        if (p, "try") in distinct or r["model"]["expect"] in ("undef", "nofuel"):
+            continue
+        distinct.add((p, "try"))
+        nontriv += 1
+        caught += sum(1 for l in r["model"]["out"].split("\n") if l == "0")
+    not_compared += sum(1 for r in tres if r["model"]["expect"] not in ("finished", "range", "undef", "nofuel"))
+    tbad = [(k, w) for k, w in tbad if tres[k]["model"]["expect"] in ("finished", "range")]
+    for k, why in tbad[:4]:
+        def still_bad_t(sxp, why=why):
+            r, b = try_differential(impl, ["(T " + sxp[3:]], fuel=1500, model_timeout=20)
+            return (bool(b) and b[0][1] == why and "Undefined" not in r[0]["impl"]["err"] and r[0]["model"]["expect"] in ("finished", "range"))
+        try:
+            small = "(T " + langrun.shrink("(P " + tprogs[k][3:], still_bad_t, budget=80 if quick else 300)[3:]
+        except Exception:
+            small = tprogs[k]
+        r, b = try_differential(impl, [small])
+        m, i = r[0]["model"], r[0]["impl"]
+        violations.append(("prog", {"try_sexpr": small, "program": m["src"], "expected_stdout": m["out"], "expected_outcome": m["expect"],
+                                    "impl_stdout": i["raw_out"] if i else None, "impl_rc": i["rc"] if i else None,
+                                    "impl_stderr": (i["err"][-600:] if i else None), "origin": "mixed-try", "why": why},
+                           "main disagrees with the reference semantics on a program that catches range errors with try / checked and goes on (%s)" % why,
+                           False))
+    if tres:
+        j = next((k for k, r in enumerate(tres) if r["model"]["out"].count("\n0\n") >= 2), 0)
+        samples.append({"program": tres[j]["model"]["src"], "reference": [tres[j]["model"]["expect"], tres[j]["model"]["out"]],
+                        "main": [tres[j]["impl"]["rc"], tres[j]["impl"]["out"]] if tres[j]["impl"] else None})
+    lap("random-try")
 
     # (4) recorded findings: replay each stored program (the ones outside CbCore are only checked here)
     replayed = 0
@@ -573,12 +798,13 @@ def run(rep):
 
     # (6) thorough tier: the independent checker over the .vo closure of the two property files
     if not quick and not proof_broken:
-        rc, o, e = common.sh(["coqchk", "-silent", "-o", "-Q", ".", "Cb", "Cb.%s.Properties_%s" % (PROP, PROP), "Cb.%s.Properties_%s_cxx" % (PROP, PROP)],
+        rc, o, e = common.sh(["coqchk", "-silent", "-o", "-Q", ".", "Cb", "Cb.%s.Properties_%s" % (PROP, PROP), "Cb.%s.Properties_%s_cxx" % (PROP, PROP),
+                              "Cb.%s.Properties_%s_try" % (PROP, PROP)],
                              cwd=common.COQ, timeout=1500)
         ok = rc == 0 and "Axioms: <none>" in (o + e).replace("\n", " ").replace("  ", " ")
         rep.coverage["coqchk"] = {"rc": rc, "axioms_none": "* Axioms: <none>" in o + e, "tail": (o + e)[-400:]}
         if rc != 0:
-            rep.violation("coqchk", {"log": (o + e)[-3000:]}, "coqchk rejects the compiled closure of Properties_C04 / Properties_C04_cxx", True)
+            rep.violation("coqchk", {"log": (o + e)[-3000:]}, "coqchk rejects the compiled closure of Properties_C04 / Properties_C04_cxx / Properties_C04_try", True)
 
     lap("shrink+replays+rest")
     rep.coverage.update({
@@ -591,8 +817,17 @@ def run(rep):
         "exhaustive": True,
         "exhaustive_scope": "the matrix %d types x (%d CbCore store-path variants, each again with the type written through a typedef alias for "
                             "the 5 signed types, + %d variants outside CbCore) x %d value kinds (cells that cannot be expressed - value outside "
-                            "int64, no in-range start value - are skipped by construction); random programs are a sample" % (
-                                len(gen_c04.TYPES), len(gen_c04.PATHS), len(gen_c04.RAW_PATHS), len(gen_c04.KINDS)),
+                            "int64, no in-range start value - are skipped by construction) + the same types x kinds x (%d CbCore + %d other) store-path "
+                            "variants under try / checked (sequences of caught stores); random programs are a sample" % (
+                                len(gen_c04.TYPES), len(gen_c04.PATHS), len(gen_c04.RAW_PATHS), len(gen_c04.KINDS), len(gen_c04.TRY_PATHS),
+                                len(gen_c04.RAW_TRY_PATHS)),
+        "try_cells": {"run": sum(try_cells_n.values()), "per_path": dict(try_cells_n), "stores_under_try": try_rejected[1],
+                      "stores_rejected_and_caught": try_rejected[0],
+                      "rule": "every (type, store path that can stand under try / checked, boundary-value kind): 3-4 stores into one target, each under "
+                              "try, the target and its neighbours read back after each; main must show the transcript of the extracted try layer "
+                              "(coq/C04/Try.v) = the one predicted from the Spec effects; where the Mech effects differ (recorded findings) the Mech one"},
+        "random_try_programs": {"run": len(tprogs), "range_errors_caught_by_try_in_reference_runs": caught},
+        "matrix_paths_withheld_by_a_finding": withheld,
         "matrix_cells_run": matrix_cells, "matrix_cells_by_group": dict(group_cells), "matrix_passes": passes, "matrix_cells_where_mech_differs_from_spec": defect_cells,
         "cells_per_path": dict(cells_by_path), "known_finding_cells": dict(known_cells), "fixed_cells": dict(fixed_cells),
         "input_distribution": dict(hist), "reference_outcomes": dict(outcomes),
@@ -612,6 +847,10 @@ def run(rep):
         "random programs stay on store paths where Mech = Spec (gen_c04.mixed_program, gen_core.Opts.avoid_*)",
         "random programs that the reference ends with a division-by-zero or bounds error are not compared here (C01 / C05 decide them)",
         "`unsigned char` is rejected by the parser: 9 of the 10 types of the property are enumerated",
+        "only `try e` / `checked e` let a program go on after a range error; e can be ++/-- on a variable, element or member, or a call (an assignment "
+        "used as an expression crashes: finding C04-assignment-expression-crash), so a rejected =, op=, argument, result or declaration is observed "
+        "through a callee that stores into a global / static / global array / global struct",
+        "try cells whose stores would leave int64 on the way (long / unsigned long at their limits) are not well-formed and are skipped (counted in cells_per_path minus try_cells.per_path)",
         "cells outside CbCore are judged against the Spec conversion of their one store (no whole-program reference run)",
         "a top-level ?: of an assignment is wrapped in `+ 0` only when a branch may be inferred bool with a value other than 0/1 (finding C04-ternary-assign-bool-branch)",
     ]
@@ -622,6 +861,30 @@ def replay(path):
     c = data["case"]
     impl = common.build_impl("plain")
     cell = c.get("cell") if isinstance(c.get("cell"), dict) else None
+    if "try_cell" in c:
+        tc = c["try_cell"]
+        r = try_cells_run(impl, [(tc, cell)])[0]
+        print(r["src"])
+        print("stores (model of today's code):", r["mech"], " demanded:", r["spec"])
+        if r["ref"]:
+            print("reference (try layer):", r["ref"]["expect"], repr(r["ref"]["out"]))
+        print("demanded stdout:", repr(r["spec_out"]))
+        i = r["impl"]
+        if i is None:
+            print("not a well-formed cell any more")
+            return 0
+        print("main:     ", i["rc"], repr(i["raw_out"]), i["err"][-300:])
+        if r["mech_out"] != r["spec_out"] and shows(i, r["mech_out"]) and PATH_FINDING.get(tc["mpath"]):
+            print("(recorded finding %s)" % PATH_FINDING[tc["mpath"]])
+            return 0
+        return 0 if shows(i, r["spec_out"]) else 1
+    if "try_sexpr" in c:
+        r, b = try_differential(impl, [c["try_sexpr"]])
+        print(r[0]["model"]["src"])
+        print("reference (try layer):", r[0]["model"]["expect"], repr(r[0]["model"]["out"]))
+        if r[0]["impl"]:
+            print("main:     ", r[0]["impl"]["rc"], repr(r[0]["impl"]["raw_out"]), r[0]["impl"]["err"][-300:])
+        return 1 if b else 0
     if "sexpr" in c or "raw_program" in c:
         if "sexpr" in c:
             rewrite = {0: (lambda src, t=cell["type"]: gen_c04.typedef_source(src, t))} if cell and cell.get("typedef") else None
